@@ -109,12 +109,22 @@ fn main() {
     for f in files { single.push(Op::Add(f, "n\n".to_string())); single.push(Op::Del(f)); single.push(upd(f, None, &["x"], &["y"])); single.push(upd(f, None, &["y"], &["z"])); single.push(upd(f, None, &["nope"], &["q"])); }
     single.push(upd("a.txt", Some("c.txt"), &["x"], &["y"])); single.push(upd("a.txt", Some("d/b.txt"), &["x"], &["x"]));
     let mut case = 0u64;
+    // patches of one, two and (thinned out) three operations ...
+    let mut patches: Vec<(Vec<Op>, bool)> = Vec::new();
+    for i in 0..single.len() { for j in (0..single.len()).map(Some).chain(std::iter::once(None)) { for k in (0..single.len()).map(Some).chain(std::iter::once(None)) {
+        if j.is_none() && k.is_some() { continue; }
+        if (i + 2 * j.unwrap_or(0) + k.unwrap_or(0)) % 3 != 0 && k.is_some() { continue; }       // thin out the triples
+        patches.push(([Some(i), j, k].iter().flatten().map(|x| single[*x].clone()).collect(), false));
+    } } }
+    // ... and every patch of FOUR operations over two files from seven operations (update, update again, update + move away, re-add,
+    // delete, update the move target, add the move target): a path that is updated, moved away, added again and updated again
+    let deep: Vec<Op> = vec![upd("a.txt", None, &["x"], &["y"]), upd("a.txt", None, &["n"], &["m"]), upd("a.txt", Some("c.txt"), &["y"], &["z"]), Op::Add("a.txt", "n\n".to_string()), Op::Del("a.txt"),
+        upd("c.txt", None, &["z"], &["w"]), Op::Add("c.txt", "x\n".to_string())];
+    for code in 0..deep.len().pow(4) { let mut c = code; patches.push(((0..4).map(|_| { let o = deep[c % deep.len()].clone(); c /= deep.len(); o }).collect(), true)); }
     for state in 0..8usize {       // which of the three files exist (content "x\n")
-        // patches of one, two and (thinned out) three operations
-        for i in 0..single.len() { for j in (0..single.len()).map(Some).chain(std::iter::once(None)) { for k in (0..single.len()).map(Some).chain(std::iter::once(None)) {
-            if j.is_none() && k.is_some() { continue; }
-            if (i + 2 * j.unwrap_or(0) + k.unwrap_or(0)) % 3 != 0 && k.is_some() { continue; }       // thin out the triples
-            let ops: Vec<Op> = [Some(i), j, k].iter().flatten().map(|x| single[*x].clone()).collect();
+        for (ops, is_deep) in patches.iter() { {
+            if *is_deep && state != 1 && state != 5 { continue; }
+            let ops: Vec<Op> = ops.clone();
             case += 1;
             let root = base.join(format!("r{case}")); fs::create_dir_all(&root).unwrap();
             let mut model: BTreeMap<String, String> = BTreeMap::new();
@@ -135,7 +145,7 @@ fn main() {
                 let _ = fs::remove_dir_all(&base); return;
             }
             let _ = fs::remove_dir_all(&root);
-        } } }
+        } }
     }
     let _ = fs::remove_dir_all(&base);
 }
